@@ -1369,10 +1369,11 @@ def _handle_sort_stage(in_collection, unused_database, options):
     sorted_collection = in_collection
     for sort_pair in sort_array:
         for sortKey, sortDirection in sort_pair.items():
+            reverse = sortDirection < 0
             sorted_collection = sorted(
                 sorted_collection,
-                key=lambda x: filtering.resolve_sort_key(sortKey, x),
-                reverse=sortDirection < 0)
+                key=lambda x: filtering.resolve_sort_key(sortKey, x, reverse),
+                reverse=reverse)
     return sorted_collection
 
 
